@@ -275,7 +275,23 @@ def shapes(tier, seed):
     rej('D:undeclared-register-form', cfgD2(), 't rb')
     rej('D:indirect-of-unlisted-register', cfgD2(), 't [ix]')
     rej('D:register-in-brackets-as-number', cfgD2(), 't [ra]')
-    return S + random_shapes(tier, seed)
+    # the choice does not depend on what was assembled earlier in the run: every accepted statement again, preceded
+    # (in a muted region) by the other accepted statements of its ISA - in particular by forms only a later variant takes
+    import re as _re
+    groups = {}
+    for sh in S:
+        if type(sh) is InstrShape and 'ok' in sh.params.get('expect', ['ok']):
+            c = sh.params['config']
+            groups.setdefault(repr(c.get('instructions')) + repr(c.get('operand_sets')) + repr(c.get('macros')), []).append(sh)
+    extra = []
+    for shs in groups.values():
+        for sh in shs:
+            others = [_re.sub(r'\bv\d\b', '1', o.params['stmt']['text']) for o in shs if o is not sh]
+            others = [t for t in others if 'eqv' not in t]
+            if others:
+                pr = {k: v for k, v in sh.params.items() if k != 'files'}
+                extra.append(InstrShape('after-other-forms:' + sh.sid, prelude=others[:6], **pr))
+    return S + extra + random_shapes(tier, seed)
 
 
 # ---- seeded random ambiguous ISAs ------------------------------------------------------------------------------------
